@@ -4,8 +4,9 @@
 //!  * the same (session id, security flags, counter, source node id) must always carry
 //!    the same bytes (a retransmission is bit-for-bit identical; otherwise two different
 //!    plaintexts were encrypted under one nonce);
-//!  * a datagram that is not a retransmission must carry a counter strictly greater
-//!    than every earlier one of that session.
+//!  * counter order on the wire is counted, not judged: slightly swapped emission order is
+//!    legitimate, and a large regression cannot be told from a new session re-using a
+//!    peer-assigned session id without the keys. Monotonicity is judged on snapshots (snapmon).
 //! `epoch` distinguishes successive sessions that legitimately reuse a session id with
 //! fresh keys (the caller passes a fingerprint of the encryption key when it knows it).
 
@@ -22,7 +23,14 @@ struct Inner {
     violations: Vec<String>,
     secured: u64,
     retransmissions: u64,
+    /// new counters that appeared on the wire slightly out of order (not judged)
+    swapped: u64,
+    /// new counters far below the maximum of "the same" (src, dst, session id) - see below
+    regressed: u64,
 }
+
+/// How far below the session's maximum a new counter may appear on the wire.
+pub const REORDER_SLACK: u64 = 32;
 
 #[derive(Default)]
 pub struct TapMonitor(RefCell<Inner>);
@@ -49,6 +57,8 @@ impl TapMonitor {
         let key = (src, dst ^ info.src_node.unwrap_or(0), info.session_id, epoch);
         let mut viol: Option<String> = None;
         let mut retrans = false;
+        let mut inner_swapped = false;
+        let mut inner_regressed = false;
         {
             let entry = inner
                 .sessions
@@ -66,11 +76,22 @@ impl TapMonitor {
                     }
                 }
                 None => {
-                    if !entry.1.is_empty() && info.ctr <= entry.0 {
-                        viol = Some(format!(
-                            "counter-not-increasing: node {} session {} new message counter {} <= earlier {}",
-                            src, info.session_id, info.ctr, entry.0
-                        ));
+                    // Counters are assigned in increasing order, but two messages prepared at
+                    // about the same time can leave in swapped order (a message waiting in the
+                    // TX buffer vs. a stand-alone ACK sent directly), so a slightly smaller
+                    // counter on the wire is not a defect. A counter far below the maximum
+                    // cannot be explained that way: the session's counter went backwards.
+                    // A counter far below the maximum is either a *new* session that happens to
+                    // carry the same peer-assigned session id (fresh keys, fresh random counter:
+                    // legitimate - the tap cannot tell without the keys) or a counter that went
+                    // backwards. It is counted, not judged here: counter monotonicity per session
+                    // is judged on the session-table snapshots (`snapmon`), where sessions have
+                    // unique internal ids; an actual reuse of a counter value is caught by the
+                    // rule above.
+                    if !entry.1.is_empty() && (info.ctr as u64) + REORDER_SLACK < entry.0 as u64 {
+                        inner_regressed = true;
+                    } else if !entry.1.is_empty() && info.ctr <= entry.0 {
+                        inner_swapped = true;
                     }
                     entry.1.insert(info.ctr, h);
                     if info.ctr > entry.0 {
@@ -82,6 +103,12 @@ impl TapMonitor {
         if retrans {
             inner.retransmissions += 1;
         }
+        if inner_swapped {
+            inner.swapped += 1;
+        }
+        if inner_regressed {
+            inner.regressed += 1;
+        }
         if let Some(v) = viol {
             inner.violations.push(v);
         }
@@ -89,6 +116,14 @@ impl TapMonitor {
 
     pub fn violations(&self) -> Vec<String> {
         self.0.borrow().violations.clone()
+    }
+
+    pub fn regressed(&self) -> u64 {
+        self.0.borrow().regressed
+    }
+
+    pub fn swapped(&self) -> u64 {
+        self.0.borrow().swapped
     }
 
     /// (secured datagrams seen, byte-identical retransmissions seen)
